@@ -1993,13 +1993,13 @@ class Message(Group):
 
         if not self.is_unknown() and self.name != message_structure:
             raise OperationNotAllowed('Cannot assign a message with a different name')
-        elif self.is_unknown():  # the message become a known message
-            self.name = message_structure
-            self._find_structure()
         if self.version != version:
             raise OperationNotAllowed('Cannot assign a message with a different version')
         elif self.encoding_chars != encoding_chars:
             raise OperationNotAllowed('Cannot assign a message with different encoding chars')
+        if self.is_unknown():  # the message become a known message
+            self.name = message_structure
+            self._find_structure()
 
         super(Message, self).parse_children(text, find_groups, **kwargs)
 
